@@ -373,7 +373,9 @@ def mon_c12(run, case, stmts):
             mx = r.get("max") if r.get("kind") == "table" else (r.get("cfg") or {}).get("max_attempts") if r.get("kind") == "config" else 1 if r.get("kind") == "none" else None
             if mx is not None and len(retry_recs) > mx - 1:
                 run.v("C12", "more_retries_than_max_attempts", "step", f"{p}: {len(retry_recs)} RETRY records with max attempts {mx}")
-        declined = [c for c in calls if not c["retry"]]
+        outcome_of = {i["inv"]: i.get("outcome") for i in run.invocations}
+        # a decline in an invocation that then died before the FAIL record was accepted is legitimately re-decided later
+        declined = [c for c in calls if not c["retry"] and outcome_of.get(c["inv"]) in ("FAILED", "SUCCEEDED", "PENDING")]
         if declined and run.final is not None:
             st = op["Status"] if op else None
             if st != "FAILED":
